@@ -293,8 +293,44 @@ impl Array for OwnArr {
         self.0.len()
     }
 }
+/// Lock-step rendezvous for threads that match the same rule on the same hand-written document:
+/// every `get` of a thread that has joined waits (briefly) for the others, so that all threads are
+/// at the same depth of the evaluation at the same time - the schedule with maximal overlap,
+/// which a free-running handful of threads practically never produces.
+pub struct Lockstep {
+    n: usize,
+    count: std::sync::atomic::AtomicUsize,
+    gen: std::sync::atomic::AtomicUsize,
+}
+impl Lockstep {
+    pub fn new(n: usize) -> Self {
+        Lockstep { n, count: Default::default(), gen: Default::default() }
+    }
+    fn wait(&self) {
+        use std::sync::atomic::Ordering::SeqCst;
+        let g = self.gen.load(SeqCst);
+        if self.count.fetch_add(1, SeqCst) + 1 >= self.n {
+            self.count.store(0, SeqCst);
+            self.gen.fetch_add(1, SeqCst);
+            return;
+        }
+        let t0 = std::time::Instant::now();
+        while self.gen.load(SeqCst) == g && t0.elapsed() < std::time::Duration::from_millis(3) {
+            std::thread::yield_now();
+        }
+    }
+}
+thread_local! {
+    pub static LOCKSTEP: std::cell::RefCell<Option<std::sync::Arc<Lockstep>>> = std::cell::RefCell::new(None);
+}
+
 impl Object for OwnObj {
     fn get(&self, key: &str) -> Option<Value<'_>> {
+        LOCKSTEP.with(|l| {
+            if let Some(ls) = &*l.borrow() {
+                ls.wait();
+            }
+        });
         self.0.iter().find(|(k, _)| k == key).map(|(_, v)| v.val())
     }
     fn keys(&self) -> Vec<Cow<'_, str>> {
